@@ -6,6 +6,7 @@ mod c35;
 mod c37;
 mod c40;
 mod c44;
+mod compworld;
 mod access;
 mod actions;
 mod c20;
